@@ -29,7 +29,25 @@ def load_detector(detector: Detector, filename: str | Path) -> None:
             f" '{type(detector).__name__}', expected '{type(new_detector).__name__}'"
         )
 
-    detector = new_detector
+    if detector.geometry.shape != new_detector.geometry.shape:
+        raise ValueError(
+            f"Wrong detector shape from 'filename':'{filename}'. Got shape:"
+            f" {new_detector.geometry.shape}, expected {detector.geometry.shape}"
+        )
+
+    # Replace the data containers of the running detector by the loaded ones
+    for name in (
+        "_scene",
+        "_photon",
+        "_charge",
+        "_pixel",
+        "_signal",
+        "_image",
+        "_data",
+        "_phase",
+    ):
+        if hasattr(new_detector, name):
+            setattr(detector, name, getattr(new_detector, name))
 
 
 def save_detector(detector: Detector, filename: str | Path) -> None:
